@@ -9,6 +9,7 @@ package main
 // harness with that trail as a prefix.
 
 import (
+	"os"
 	"fmt"
 	"go/token"
 	"go/types"
@@ -54,6 +55,7 @@ type fnInfo struct {
 	pkg       *ssa.Package
 	name      string
 	mergeable int8 // 0 unknown, 1 yes, -1 no
+	lazy      map[ssa.Instruction]bool // loads evaluated in gc order (after the calls of their statement)
 }
 
 type deferred struct {
@@ -77,6 +79,7 @@ type frame struct {
 	panic            any
 	phitemps         []value
 	callPos          token.Pos
+	pending          []ssa.Instruction // lazy instructions not yet evaluated
 }
 
 func (fr *frame) get(key ssa.Value) value {
@@ -595,6 +598,19 @@ func runFrame(fr *frame) {
 			if m.steps > m.budget {
 				panic(pathAbort{"budget"})
 			}
+			if lz := fr.info.lazy; lz != nil {
+				if lz[instr] {
+					fr.pending = append(fr.pending, instr)
+					continue
+				}
+				if len(fr.pending) > 0 {
+					if forcesAll(instr) {
+						fr.forcePending(nil)
+					} else {
+						fr.forcePending(instr)
+					}
+				}
+			}
 			if visitInstr(fr, instr) == kReturn {
 				return
 			}
@@ -749,6 +765,18 @@ func (p *Program) info(fn *ssa.Function) *fnInfo {
 		}
 	}
 	fi.nslots = int(n)
+	fi.lazy = computeLazy(fn)
+	if os.Getenv("GOSYM_DEBUGLAZY") != "" && fi.lazy != nil {
+		for _, b := range fn.Blocks {
+			for _, ins := range b.Instrs {
+				if fi.lazy[ins] {
+					if v, ok := ins.(ssa.Value); ok {
+						fmt.Fprintf(os.Stderr, "LAZY %s: %s = %s\n", fn.Name(), v.Name(), ins)
+					}
+				}
+			}
+		}
+	}
 	fi.intrinsic = findIntrinsic(fn, fi.name)
 	p.infos.Store(fn, fi)
 	return fi
@@ -764,6 +792,7 @@ type Violation struct {
 	Nondets []NDVal  `json:"nondets"`
 	Trail   []Decision `json:"-"`
 	Sched   []int    `json:"sched,omitempty"`
+	Obs     []string `json:"observed,omitempty"`
 }
 
 type NDVal struct {
@@ -846,6 +875,7 @@ type Machine struct {
 	initDirect *ssa.Function
 	curFn      *ssa.Function
 	fixedPos   int
+	termLabel  string
 	hostWG  sync.WaitGroup
 }
 
